@@ -155,18 +155,24 @@ func RunHX(c HXCheck, tier string) int {
 				return
 			}
 			// re-execute twice: the same program must fail the same way
-			same := 0
+			same, again := 0, 0
 			for k := 0; k < 2; k++ {
-				if f, _ := RunProgram(pool, v.Scope, tier, v.Idx, v.Prog); f != nil && f.Kind == v.Fail.Kind && f.Msg == v.Fail.Msg {
-					same++
+				if f, _ := RunProgram(pool, v.Scope, tier, v.Idx, v.Prog); f != nil {
+					again++
+					if f.Kind == v.Fail.Kind && f.Msg == v.Fail.Msg {
+						same++
+					}
 				}
 			}
 			art := map[string]interface{}{"property": c.Prop, "scope": v.Scope, "tier": tier, "idx": v.Idx, "seed": v.Seed, "cfg": v.Cfg,
-				"program": v.Prog, "program_text": apix.ProgString(v.Prog), "fail": v.Fail, "notes": v.Notes, "reproduced": same,
+				"program": v.Prog, "program_text": apix.ProgString(v.Prog), "fail": v.Fail, "notes": v.Notes, "reproduced": same, "failed_again": again,
 				"go_test": GoTest(v, tier)}
 			p := evid.Replay(c.Prop, art)
-			if same < 2 && v.Fail.Kind != "crash" {
-				fmt.Printf("UNSTABLE: property=%s failure did not reproduce identically (%d/2), not reported as violation: %s\n", c.Prop, same, p)
+			// the same program failing on every execution is a violation even when the wording differs between the runs
+			// (a message may quote garbage read from a recycled page); a re-run that PASSES means nondeterminism the
+			// harness does not own, which is a harness error, never a violation
+			if again < 2 && v.Fail.Kind != "crash" {
+				fmt.Printf("UNSTABLE: property=%s failure did not reproduce (%d/2 re-runs failed), not reported as violation: %s\n", c.Prop, again, p)
 				total.Errors = append(total.Errors, "unstable failure "+p)
 				return
 			}
